@@ -1562,3 +1562,49 @@ def rf143(run):
                           'byte in front of a digit 0…7 is read back with other bytes' %
                           (label, val, chr(nxt) if nxt else 'nothing', want_val, chr(left)), line=site['l'])
     return n
+
+
+# ---------------------------------------------------------------------------------------------
+# RF159: integer tokens are converted by the unsigned conversion
+# ---------------------------------------------------------------------------------------------
+
+def rf159(run):
+    rule = 'RF159'
+    run.rule(rule, 'the textual writer prints u64 data, MIR_OP_UINT immediates and pointers as unsigned numbers (conversion `u` / `x` with the '
+                   'l / ll length, control), i.e. up to 2^64-1.  The scanner therefore converts integer tokens with strtoul / strtoull, whose '
+                   'range covers both those and — by wrap-around — the negative numbers; strtol / strtoll saturate at INT64_MAX.  No '
+                   'function reachable from the scanner entry points calls the signed conversions')
+    tu = run.tu('mir')
+    cg = tu.callgraph()
+    reach = tu.reachable(['MIR_scan_string'])
+    run.control(rule, 'scanner closure found', 'scan_token' in reach)
+    # control: the writer does print unsigned 64-bit conversions
+    import re
+    wr = 0
+    for fn in ('MIR_output_op', '_MIR_output_data_item_els', 'MIR_output_item'):
+        g = tu.func(fn)
+        if g is None or g.body is None:
+            continue
+        for x in g.walk():
+            if x['k'] == 'StringLiteral' and re.search(r'%l?l[ux]', x.get('s', '')):
+                wr += 1
+    run.control(rule, 'writer prints unsigned 64-bit numbers', wr >= 2)
+    n = us = 0
+    for fn in sorted(reach):
+        g = tu.func(fn)
+        if g is None or g.body is None or not g.file.startswith('/repo'):
+            continue
+        for x in g.walk():
+            if x['k'] == 'CallExpr' and x.get('callee') in ('strtol', 'strtoll', 'atol', 'atoll', 'atoi'):
+                n += 1
+                run.functions_analysed.add(('mir', g.name))
+                run.ob(rule, (g.name, x['l']), False, {'site': '%s:%d' % (g.relfile(), x['l']), 'call': F.src(x)[:60]})
+                run.violation(rule, g, 'signed conversion of an integer token', '%s converts a number of the text with `%s`: a u64 data element, an '
+                              'unsigned immediate or a pointer of 2^63 or more (printed unsigned by the writer) reads back as INT64_MAX' %
+                              (g.name, x.get('callee')), line=x['l'])
+            elif x['k'] == 'CallExpr' and x.get('callee') in ('strtoul', 'strtoull'):
+                us += 1
+                run.functions_analysed.add(('mir', g.name))
+    run.control(rule, 'unsigned conversion used by the scanner', us >= 1)
+    run.ob(rule, ('scanner',), n == 0, {'functions reachable from MIR_scan_string': len(reach), 'unsigned conversions': us, 'signed conversions': n})
+    return 1
